@@ -132,6 +132,8 @@ def str_method(engine, s: SV, name, args, kwargs, node):
             return str_join(engine, s, parts)
     if name == "split" and len(args) == 1:
         return str_split(engine, s, lift(args[0], TStr))
+    if name == "format" and isinstance(s, SV) is False:
+        pass
     if name == "encode":
         f = ufn("utf8_encode", z3.StringSort(), TBytes.sort())
         return SV(f(s.t), TBytes)
